@@ -348,6 +348,18 @@ where
         }
     }
 
+    /// Error for a value that could not be queued, because the channel was closed
+    /// while waiting for queue space.
+    ///
+    /// Reports the remote send error that caused the closure, if any, so that
+    /// the reason for disconnection is classified as for later send attempts.
+    fn closed_error<V>(&self, value: V) -> SendError<V> {
+        match self.remote_send_err_rx.borrow().as_ref() {
+            Some(err) => SendError::from_remote_send_error(err.clone(), value),
+            None => SendError::Closed(value),
+        }
+    }
+
     /// Sends a value over this channel.
     ///
     /// # Error reporting
@@ -364,7 +376,7 @@ where
                 let (req, sent) = send_req(Ok(value));
                 match tx.send(req).await {
                     Ok(()) => Ok(sent),
-                    Err(err) => Err(SendError::Closed(err.0.value.expect("unreachable"))),
+                    Err(err) => Err(self.closed_error(err.0.value.expect("unreachable"))),
                 }
             }
             None => Err(SendError::Closed(value)),
@@ -429,7 +441,7 @@ where
                 let tx = (*tx).clone();
                 match tx.reserve_owned().await {
                     Ok(permit) => Ok(Permit(permit)),
-                    Err(_) => Err(SendError::Closed(())),
+                    Err(_) => Err(self.closed_error(())),
                 }
             }
             _ => Err(SendError::Closed(())),
